@@ -7,10 +7,13 @@ EXTENDS Stash, Json
 Trace == ndJsonDeserialize("trace.ndjson")
 VARIABLE l
 Ids(s) == [i \in 1..Len(s) |-> s[i].id]
-Matches(e) == Ids(mbox') = e.mbox /\ Ids(stash') = e.stash /\ buffer' = e.hasbuf
-TNew(e) == /\ mbox' = <<>> /\ stash' = <<>> /\ buffer' = e.buffer
+\* the content of the main mailbox can be projected only for the intrusive UnboundedMailbox; for the
+\* other kinds the trace carries its length ("mlen") instead
+Matches(e) == /\ IF "mbox" \in DOMAIN e THEN Ids(mbox') = e.mbox ELSE Len(mbox') = e.mlen
+              /\ Ids(stash') = e.stash /\ buffer' = e.hasbuf
+TNew(e) == /\ mbox' = <<>> /\ stash' = <<>> /\ buffer' = e.buffer /\ kind' = e.kind
            /\ cur' = None /\ nops' = 0 /\ held' = FALSE /\ sent' = 0 /\ ntag' = 0 /\ nrel' = 0 /\ dlog' = <<>>
-           /\ last' = [op |-> "Init", id |-> 0, err |-> "", buffer |-> e.buffer]
+           /\ last' = [op |-> "Init", id |-> 0, err |-> "", buffer |-> e.buffer, kind |-> e.kind]
 TStep ==
   /\ l <= Len(Trace)
   /\ l' = l + 1
@@ -19,7 +22,7 @@ TStep ==
      \/ e.op = "Send" /\ Send /\ last'.id = e.id /\ Matches(e)
      \/ e.op = "Deliver" /\ e.id # 0 /\ Deliver /\ last'.id = e.id /\ Matches(e)
      \/ e.op = "Deliver" /\ e.id = 0 /\ mbox = <<>> /\ cur' = None /\ nops' = 0 /\ held' = FALSE
-           /\ UNCHANGED <<mbox, stash, buffer, sent, ntag, nrel, dlog, last>>
+           /\ UNCHANGED <<mbox, stash, buffer, kind, sent, ntag, nrel, dlog, last>>
      \/ e.op = "Stash" /\ StashOp /\ last'.err = e.err /\ Matches(e)
      \/ e.op = "Unstash" /\ UnstashOp /\ last'.err = e.err /\ Matches(e)
      \/ e.op = "UnstashAll" /\ UnstashAllOp /\ last'.err = e.err /\ Matches(e)
